@@ -41,10 +41,11 @@ VARIABLES
   wpc, wblks, wk, wcol, wh, wpos, wopen, wplan, wname, wres,
   \* ---- one reading process
   rpc, rname, rmeta, ridx, rcol, ropen, rres, rretry,
+  rwhy,        \* ghost: why the reader ended in an error ("nometa": the day directory had no metadata file)
   act
 
 wvars == <<wpc, wblks, wk, wcol, wh, wpos, wopen, wplan, wname, wres>>
-rvars == <<rpc, rname, rmeta, ridx, rcol, ropen, rres, rretry>>
+rvars == <<rpc, rname, rmeta, ridx, rcol, ropen, rres, rretry, rwhy>>
 vars  == <<fs, committed, stale, payload, wvars, rvars, act>>
 
 -----------------------------------------------------------------------------
@@ -302,7 +303,7 @@ R_List ==
   /\ IF fs.dir = "none"
      THEN /\ rpc' = "done" /\ rres' = <<>> /\ rname' = <<"none", 0>>
      ELSE /\ rpc' = "openmeta" /\ rname' = Name /\ rres' = <<>>
-  /\ RIdle /\ rretry' = 0
+  /\ RIdle /\ rretry' = 0 /\ rwhy' = ""
   /\ UNCHANGED <<fs, committed, stale, payload, wvars>>
   /\ act' = [name |-> "R_List"]
 
@@ -318,23 +319,26 @@ R_OpenMeta ==
      THEN /\ rmeta' = fs.meta /\ StartRead(fs.meta) /\ UNCHANGED <<rname, rres, rretry>>
      ELSE /\ rpc' = "recover" /\ UNCHANGED <<rname, rmeta, ridx, rcol, rres, rretry>>   \* ENOENT
   /\ ropen' = [c \in Cols |-> NoFile]
+  /\ rwhy' = IF rname = Name /\ fs.meta.present THEN rwhy
+             ELSE IF rname = Name THEN "nometa" ELSE IF rwhy = "nometa" THEN rwhy ELSE "renamed"
   /\ UNCHANGED <<fs, committed, stale, payload, wvars>>
   /\ act' = [name |-> "R_OpenMeta"]
 
 \* recoverDirPath(): list the month directory, find the day by prefix
 R_RecoverList ==
   /\ rpc = "recover"
-  /\ IF fs.dir = "none" THEN /\ rpc' = "err" /\ UNCHANGED rname
-                        ELSE /\ rpc' = "reopenmeta" /\ rname' = Name
-  /\ UNCHANGED <<fs, committed, payload, wvars, rmeta, ridx, rcol, ropen, rres, rretry>>
+  /\ IF fs.dir = "none" THEN /\ rpc' = "err" /\ rwhy' = "nodir" /\ UNCHANGED rname
+                        ELSE /\ rpc' = "reopenmeta" /\ rname' = Name /\ UNCHANGED rwhy
+  /\ UNCHANGED <<fs, committed, stale, payload, wvars, rmeta, ridx, rcol, ropen, rres, rretry>>
   /\ act' = [name |-> "R_RecoverList"]
 
 \* second attempt to open the metadata file; a second ENOENT is an error
 R_ReopenMeta ==
   /\ rpc = "reopenmeta"
   /\ IF rname = Name /\ fs.meta.present
-     THEN /\ rmeta' = fs.meta /\ StartRead(fs.meta) /\ UNCHANGED <<rname, rres, rretry>>
+     THEN /\ rmeta' = fs.meta /\ StartRead(fs.meta) /\ UNCHANGED <<rname, rres, rretry, rwhy>>
      ELSE /\ rpc' = "err" /\ UNCHANGED <<rname, rmeta, ridx, rcol, rres, rretry>>
+          /\ rwhy' = IF rwhy = "nometa" \/ (rname = Name /\ ~fs.meta.present) THEN "nometa" ELSE "rename-race"
   /\ ropen' = [c \in Cols |-> NoFile]
   /\ UNCHANGED <<fs, committed, stale, payload, wvars>>
   /\ act' = [name |-> "R_ReopenMeta"]
@@ -353,10 +357,11 @@ R_Read ==
                  ELSE IF ReadAll THEN fs.col[c] ELSE [exists |-> TRUE, data |-> <<>>]
          data == IF ReadAll THEN file.data ELSE fs.col[c].data
      IN IF needFile /\ ~ropen[c].exists /\ ~canOpen
-        THEN \* ENOENT: reopen the directory (metadata is re-read), retry once
+        THEN \* ENOENT: recover the directory path (the metadata snapshot and the column files that
+             \* are already open are kept), retry once
              /\ IF rretry = 1
-                THEN rpc' = "err" /\ UNCHANGED <<rretry>>
-                ELSE rpc' = "openmeta" /\ rretry' = 1
+                THEN rpc' = "err" /\ rwhy' = "rename-race" /\ UNCHANGED <<rretry>>
+                ELSE rpc' = "colrecover" /\ rretry' = 1 /\ UNCHANGED rwhy
              /\ UNCHANGED <<rname, rmeta, ridx, rcol, ropen, rres>>
         ELSE /\ ropen' = IF needFile /\ ~ropen[c].exists THEN [ropen EXCEPT ![c] = file] ELSE ropen
              /\ LET v == IF needFile THEN ReadResult(rmeta, data, i, c)
@@ -372,14 +377,22 @@ R_Read ==
                            /\ IF i < Len(rmeta.blks) THEN ridx' = i + 1 /\ UNCHANGED rpc
                                                      ELSE ridx' = i /\ rpc' = "done"
              /\ rretry' = 0
-             /\ UNCHANGED <<rname, rmeta>>
+             /\ UNCHANGED <<rname, rmeta, rwhy>>
   /\ UNCHANGED <<fs, committed, stale, payload, wvars>>
   /\ act' = [name |-> "R_Read", i |-> ridx, c |-> rcol]
+
+\* recoverDirPath() after a failed column open: list the month directory, take the current name
+R_ColRecover ==
+  /\ rpc = "colrecover"
+  /\ IF fs.dir = "none" THEN /\ rpc' = "err" /\ rwhy' = "nodir" /\ UNCHANGED rname
+                        ELSE /\ rpc' = "read" /\ rname' = Name /\ UNCHANGED rwhy
+  /\ UNCHANGED <<fs, committed, stale, payload, wvars, rmeta, ridx, rcol, ropen, rres, rretry>>
+  /\ act' = [name |-> "R_ColRecover"]
 
 \* the reader's result has been consumed; it may run again
 R_Finish ==
   /\ rpc \in {"done", "err"}
-  /\ rpc' = "idle" /\ rname' = <<"none", 0>> /\ rres' = <<>> /\ RIdle /\ rretry' = 0
+  /\ rpc' = "idle" /\ rname' = <<"none", 0>> /\ rres' = <<>> /\ RIdle /\ rretry' = 0 /\ rwhy' = ""
   /\ UNCHANGED <<fs, committed, stale, payload, wvars>>
   /\ act' = [name |-> "R_Finish"]
 
@@ -392,12 +405,12 @@ Init ==
   /\ wopen = {} /\ wplan = <<>>
   /\ wname = <<"none", 0>> /\ wres = "none"
   /\ rpc = "idle" /\ rname = <<"none", 0>> /\ rmeta = NoMeta /\ ridx = 0 /\ rcol = 0
-  /\ ropen = [c \in Cols |-> NoFile] /\ rres = <<>> /\ rretry = 0
+  /\ ropen = [c \in Cols |-> NoFile] /\ rres = <<>> /\ rretry = 0 /\ rwhy = ""
   /\ act = [name |-> "Init"]
 
 WriterStep == W_Mkdir \/ W_OpenMeta \/ W_OpenCol \/ W_FileOp \/ W_CreateTmp \/ W_WriteTmp
               \/ W_RenameMeta \/ W_RenameDir \/ W_Return
-ReaderStep == R_List \/ R_OpenMeta \/ R_RecoverList \/ R_ReopenMeta \/ R_Read \/ R_Finish
+ReaderStep == R_List \/ R_OpenMeta \/ R_RecoverList \/ R_ReopenMeta \/ R_Read \/ R_ColRecover \/ R_Finish
 
 -----------------------------------------------------------------------------
 (* Properties *)
@@ -458,4 +471,11 @@ ReaderSnapshot ==
   rpc = "done" => /\ IsPrefixOf([i \in 1..Len(rres) |-> rres[i].id], committed)
                   /\ \A i \in 1..Len(rres) : rres[i].ok
 ReaderNoError == rpc # "err"
+
+\* As built, a reader that meets a day directory whose first write-out has not committed yet
+\* (directory without .blockmeta) fails (known finding KF-store-nometa-day); every other reader
+\* error is still a counterexample.
+\* Likewise a directory rename that falls between the reader's recovery listing and its
+\* second open attempt (KF-store-rename-race): the reader retries only once.
+ReaderNoErrorKF == rpc = "err" => rwhy \in {"nometa", "rename-race"}
 =============================================================================
